@@ -204,7 +204,34 @@ impl<I: Iterator> Iterator for Hinted<I> {
 }
 pub type PairIter = Hinted<std::vec::IntoIter<(Item, Pri)>>;
 
-pub trait QApi: Sized + Clone {
+thread_local! {
+    pub static PROBE_SNAP: std::cell::RefCell<Option<Snap>> = const { std::cell::RefCell::new(None) };
+}
+/// wrapper that lets serde_test::assert_de_tokens hand us the deserialized value: its PartialEq
+/// records a snapshot of the value it is called on and always agrees
+pub struct Probe<T>(pub T);
+impl<'de, T: serde::Deserialize<'de>> serde::Deserialize<'de> for Probe<T> {
+    fn deserialize<D: serde::Deserializer<'de>>(d: D) -> Result<Self, D::Error> {
+        T::deserialize(d).map(Probe)
+    }
+}
+impl<T: QApi> PartialEq for Probe<T> {
+    fn eq(&self, _o: &Self) -> bool {
+        PROBE_SNAP.with(|c| {
+            if c.borrow().is_none() {
+                *c.borrow_mut() = Some(self.0.snap());
+            }
+        });
+        true
+    }
+}
+impl<T> std::fmt::Debug for Probe<T> {
+    fn fmt(&self, f: &mut std::fmt::Formatter) -> std::fmt::Result {
+        write!(f, "Probe")
+    }
+}
+
+pub trait QApi: Sized + Clone + for<'de> serde::Deserialize<'de> {
     const KIND: &'static str;
     fn push(&mut self, i: Item, p: Pri) -> Option<Pri>;
     fn push_increase(&mut self, i: Item, p: Pri) -> Option<Pri>;
@@ -235,7 +262,8 @@ pub trait QApi: Sized + Clone {
     fn into_vec(self) -> Vec<Item>;
     fn into_iter_vec(self) -> Vec<(Item, Pri)>;
     /// consume `n` elements from the front of iter_mut (or `&mut queue`), applying f, then drop / forget
-    fn iter_mut_front(&mut self, n: usize, via_ref: bool, forget: bool, f: &mut dyn FnMut(&mut Item, &mut Pri));
+    /// `nb` further elements are taken from the back where the iterator offers next_back
+    fn iter_mut_front(&mut self, n: usize, nb: usize, via_ref: bool, forget: bool, f: &mut dyn FnMut(&mut Item, &mut Pri));
     fn append(&mut self, o: &mut Self);
     fn extend_it(&mut self, it: PairIter);
     fn clear(&mut self);
@@ -252,6 +280,8 @@ pub trait QApi: Sized + Clone {
     fn ser_json(&self) -> Result<String, String>;
     fn de_json(s: &str) -> Result<Self, String>;
     fn debug_string(&self) -> String;
+    /// deserialize from serde tokens (serde_test); the result is observed through a snapshot
+    fn de_tokens_snap(tokens: &'static [serde_test::Token]) -> Result<Snap, String>;
     /// run f on a protocol view of the named iterator
     fn with_iter(&mut self, it: &str, adaptor: &str, k: usize, forget: bool, f: &mut dyn FnMut(&mut dyn Proto));
     fn with_into_iter(self, it: &str, adaptor: &str, k: usize, f: &mut dyn FnMut(&mut dyn Proto));
@@ -350,18 +380,6 @@ macro_rules! common_impl {
         fn into_iter_vec(self) -> Vec<(Item, Pri)> {
             self.into_iter().collect()
         }
-        fn iter_mut_front(&mut self, n: usize, via_ref: bool, forget: bool, f: &mut dyn FnMut(&mut Item, &mut Pri)) {
-            let mut it = if via_ref { (&mut *self).into_iter() } else { self.iter_mut() };
-            for _ in 0..n {
-                match it.next() {
-                    Some((i, p)) => f(i, p),
-                    None => break,
-                }
-            }
-            if forget {
-                std::mem::forget(it);
-            }
-        }
         fn append(&mut self, o: &mut Self) {
             Self::append(self, o)
         }
@@ -401,12 +419,31 @@ macro_rules! common_impl {
         fn de_json(s: &str) -> Result<Self, String> {
             serde_json::from_str(s).map_err(|e| format!("{}", e))
         }
+        fn de_tokens_snap(tokens: &'static [serde_test::Token]) -> Result<Snap, String> {
+            PROBE_SNAP.with(|c| *c.borrow_mut() = None);
+            let expected: Probe<Self> = Probe(Self::from_vec(vec![]));
+            serde_test::assert_de_tokens(&expected, tokens);
+            PROBE_SNAP.with(|c| c.borrow_mut().take()).ok_or_else(|| "no value".to_string())
+        }
     };
 }
 
 impl<H: BuildHasher + Default + Clone + std::fmt::Debug> QApi for PriorityQueue<Item, Pri, H> {
     const KIND: &'static str = "pq";
     common_impl!();
+    fn iter_mut_front(&mut self, n: usize, _nb: usize, via_ref: bool, forget: bool, f: &mut dyn FnMut(&mut Item, &mut Pri)) {
+        let mut it = if via_ref { (&mut *self).into_iter() } else { self.iter_mut() };
+        for _ in 0..n {
+            match it.next() {
+                Some((i, p)) => f(i, p),
+                None => break,
+            }
+        }
+        if forget {
+            std::mem::forget(it);
+        }
+    }
+
     fn peek(&self, _end: End) -> Option<(&Item, &Pri)> {
         Self::peek(self)
     }
@@ -474,6 +511,25 @@ impl<H: BuildHasher + Default + Clone + std::fmt::Debug> QApi for PriorityQueue<
 impl<H: BuildHasher + Default + Clone> QApi for DoublePriorityQueue<Item, Pri, H> {
     const KIND: &'static str = "dpq";
     common_impl!();
+    fn iter_mut_front(&mut self, n: usize, nb: usize, via_ref: bool, forget: bool, f: &mut dyn FnMut(&mut Item, &mut Pri)) {
+        let mut it = if via_ref { (&mut *self).into_iter() } else { self.iter_mut() };
+        for _ in 0..n {
+            match it.next() {
+                Some((i, p)) => f(i, p),
+                None => break,
+            }
+        }
+        for _ in 0..nb {
+            match it.next_back() {
+                Some((i, p)) => f(i, p),
+                None => break,
+            }
+        }
+        if forget {
+            std::mem::forget(it);
+        }
+    }
+
     fn peek(&self, end: End) -> Option<(&Item, &Pri)> {
         match end {
             End::Min => Self::peek_min(self),
@@ -652,6 +708,15 @@ impl Q {
             ("pq", false) => Q::PqH(QApi::from_iter_it(it)),
             (_, true) => Q::DqS(QApi::from_iter_it(it)),
             (_, false) => Q::DqH(QApi::from_iter_it(it)),
+        }
+    }
+    pub fn de_tokens(kind: &str, hasher: &str, tokens: &'static [serde_test::Token]) -> Result<Snap, String> {
+        HASHER_KIND.with(|c| c.set(hasher_code(hasher)));
+        match (kind, hasher == "std") {
+            ("pq", true) => <PqS as QApi>::de_tokens_snap(tokens),
+            ("pq", false) => <PqH as QApi>::de_tokens_snap(tokens),
+            (_, true) => <DqS as QApi>::de_tokens_snap(tokens),
+            (_, false) => <DqH as QApi>::de_tokens_snap(tokens),
         }
     }
     pub fn de_json(kind: &str, hasher: &str, s: &str) -> Result<Q, String> {
